@@ -714,6 +714,9 @@ func runBehaviour(t *testing.T, tr *vh.Trace, tid string, beh Beh, variant int) 
 			cctxs  []*cctx
 			cctxN  int
 			ctxReq = make(chan [3]int, 16)
+			// reads of the cached kinds made by a controller (controller.Reader.Get: the path through the controller's state
+			// adapter, which is not the one of Runtime.CachedState()), served by the same extra controller
+			readReq = make(chan chan struct{})
 		)
 
 		hasCtx := func(k string, id int) bool {
@@ -775,6 +778,24 @@ func runBehaviour(t *testing.T, tr *vh.Trace, tid string, beh Beh, variant int) 
 					case <-pctx.Done():
 						return nil
 					case <-crt.EventCh():
+					case done := <-readReq:
+						for _, k := range beh.Cached {
+							for _, id := range r.ids {
+								rctx, rcancel := context.WithTimeout(pctx, time.Millisecond)
+								res, gerr := crt.Get(rctx, key(k, id).Pointer())
+								rcancel()
+
+								switch {
+								case gerr == nil:
+									o := obsOf(k, id, res)
+									r.emit(Line{Ev: "cread", Reader: 10, K: k, ID: id, Ver: o.Ver, Td: o.Td, Fe: o.Fe, Inc: r.crs.Class(res.Metadata().Created())})
+								case state.IsNotFoundError(gerr):
+									r.emit(Line{Ev: "cread", Reader: 10, K: k, ID: id, Fe: true})
+								}
+							}
+						}
+
+						close(done)
 					case rq := <-ctxReq:
 						k := map[int]string{1: "K1", 2: "K2"}[rq[1]]
 
@@ -792,6 +813,23 @@ func runBehaviour(t *testing.T, tr *vh.Trace, tid string, beh Beh, variant int) 
 				}
 			}}); rerr != nil {
 				t.Fatal(rerr)
+			}
+		}
+
+		ctrlReads := func() {
+			if len(beh.Cached) == 0 {
+				return
+			}
+
+			done := make(chan struct{})
+
+			select {
+			case readReq <- done:
+				select {
+				case <-done:
+				case <-time.After(time.Second):
+				}
+			case <-time.After(time.Second):
 			}
 		}
 
@@ -900,6 +938,7 @@ func runBehaviour(t *testing.T, tr *vh.Trace, tid string, beh Beh, variant int) 
 
 			synctest.Wait()
 			cachedReads(1)
+			ctrlReads()
 
 			// now and then a teardown-bound context for a cached resource the cache is up to date about
 			for _, k := range beh.Cached {
@@ -944,6 +983,7 @@ func runBehaviour(t *testing.T, tr *vh.Trace, tid string, beh Beh, variant int) 
 			time.Sleep(3 * time.Minute)
 			synctest.Wait()
 			cachedReads(2)
+			ctrlReads()
 
 			if r.lines() == before {
 				break
